@@ -550,7 +550,7 @@ def check_setop(case):
     if got != want:
         kind = "repeated_clause" if len(set(got)) < len(got) else ("clause_order" if sorted(got) == sorted(want) else "clause_set")
         out.append((mksig("wellformed", cls, kind, "setop_tail"), "%s tail calls %r render the clauses %r (expected %r): %r" % (cls, case["tail"], got, want, s1)))
-    if cls == "sqlite" and case["optail"] == 0 and case["op"] != "minus":
+    if cls == "sqlite" and case["op"] != "minus":
         msg = sqlite_parse(s1)
         if msg:
             out.append((mksig("sqlite_parser", "setop", _near(msg)), "%s: %r" % (msg, s1)))
